@@ -125,7 +125,8 @@ def _to_int_capacity(capacity: float, weights: Sequence[float]) -> tuple[int, fl
         return 0, 1.0
 
     scale = min(max_capacity / capacity, 1000.0)
-    return int(capacity * scale), scale
+    # capacity * scale can land just below the intended integer (1.005 * 1000 = 1004.9999999999999)
+    return int(capacity * scale + 1e-9), scale
 
 
 def _greedy_fallback(
